@@ -309,4 +309,319 @@ theorem wake_kill_lastS (u i polls : Nat) (T : List Nat) (results : List (Nat ×
     simpa using hfin
   rw [stepTail_eq _ (by rw [hset]; exact hls), hset]
 
+/-! ## Part 4: the invariant of the polling phase -/
+
+/-- the data invariant of the polling phase over the surplus workers `T` (the analogue of `KI` of Core/StopRun.lean,
+    which speaks about all workers of the watcher): the kernel stays still; the parked coroutines `Q` belong to
+    pairwise different workers of `T`, each alive, stubborn, not yet waited for; the workers of `T` without a parked
+    coroutine are gone; the slots of the `gen.multi` are all accounted for; every process outside `T` is what it was
+    (`k0`); no pid has been allocated -/
+structure KT (i polls : Nat) (T : List Nat) (w : Watcher) (k0 : Kernel) (results : List (Nat × Val)) (Q : List QE) (k : Kernel)
+    (objs : List PObj) (nid : Nat) : Prop where
+  base : k.Base
+  still : k.Still
+  sorted : QSorted Q
+  ids : ∀ e ∈ Q, i + 4 < e.fid ∧ e.fid < nid
+  dls : ∀ e ∈ Q, e.dl ≤ k.now + 100
+  iub : ∀ e ∈ Q, e.i ≤ polls
+  nodup : (Q.map (·.pid)).Nodup
+  live : ∀ e ∈ Q, e.pid ∈ T ∧ e.pid ∈ w.pids ∧ k.Stub e.pid ∧
+    ∃ o, objs.find? (fun o => decide (o.pid = e.pid)) = some o ∧ o.rc = none
+  done : ∀ q ∈ T, q ∉ Q.map (·.pid) → k.GoneP q
+  count : results.length + Q.length = T.length
+  res : ∀ r ∈ results, r.2 = Val.bool true
+  cover : ∀ j < T.length, j ∈ results.map (·.1) ∨ j ∈ Q.map (·.idx)
+  other : ∀ q, q ∉ T → k.find q = k0.find q
+  npid : k.nextPid = k0.nextPid
+
+/-- a poll that finds the worker alive keeps the invariant; one unit of the measure is used -/
+theorem KT.repark {i polls : Nat} {T : List Nat} {w : Watcher} {k0 : Kernel} {results : List (Nat × Val)} {h : QE} {tl : List QE}
+    {k : Kernel} {objs : List PObj} {nid : Nat}
+    (I : KT i polls T w k0 results (h :: tl) k objs nid) (hi : h.i < polls) :
+    KT i polls T w k0 results (tl ++ [{ h with i := h.i + 1, fid := nid, dl := max k.now h.dl + 100 }])
+      (({ k.beginStep with now := max k.now h.dl } : Kernel).bump 1) objs (nid + 2) ∧
+    qMeasure polls (tl ++ [{ h with i := h.i + 1, fid := nid, dl := max k.now h.dl + 100 }]) + 1 =
+      qMeasure polls (h :: tl) := by
+  have hnow : (({ k.beginStep with now := max k.now h.dl } : Kernel).bump 1).now = max k.now h.dl := rfl
+  refine ⟨⟨(I.base.beginStep.setNow_base _).bump 1, (I.still.beginStep.setNow_still _).bump 1, ?_, ?_, ?_, ?_, ?_, ?_, ?_, ?_,
+    I.res, ?_, I.other, I.npid⟩, ?_⟩
+  · apply QSorted.snoc _ _ I.sorted.2
+    intro x hx
+    have h1 := I.dls x (by simp [hx])
+    have h2 := I.ids x (by simp [hx])
+    simp only
+    omega
+  · intro e he
+    rcases List.mem_append.mp he with he | he
+    · have := I.ids e (by simp [he]); omega
+    · simp only [List.mem_singleton] at he; subst he
+      have := I.ids h (by simp); simp only; omega
+  · intro e he
+    rw [hnow]
+    rcases List.mem_append.mp he with he | he
+    · have := I.dls e (by simp [he]); omega
+    · simp only [List.mem_singleton] at he; subst he; simp only; omega
+  · intro e he
+    rcases List.mem_append.mp he with he | he
+    · exact I.iub e (by simp [he])
+    · simp only [List.mem_singleton] at he; subst he; simp only; omega
+  · have := I.nodup
+    simp only [List.map_cons, List.nodup_cons] at this
+    simp only [List.map_append, List.map_cons, List.map_nil]
+    rw [List.nodup_append]
+    refine ⟨this.2, by simp, ?_⟩
+    intro x hx y hy
+    simp only [List.mem_singleton] at hy; subst hy
+    intro hxy; subst hxy; exact this.1 hx
+  · intro e he
+    rcases List.mem_append.mp he with he | he
+    · exact I.live e (by simp [he])
+    · simp only [List.mem_singleton] at he; subst he; exact I.live h (by simp)
+  · intro q hq hnq
+    apply I.done q hq
+    intro hc; apply hnq
+    simp only [List.map_cons, List.mem_cons] at hc
+    simp only [List.map_append, List.map_cons, List.map_nil, List.mem_append, List.mem_singleton]
+    rcases hc with hc | hc
+    · exact Or.inr hc
+    · exact Or.inl hc
+  · have := I.count; simp only [List.length_cons, List.length_append, List.length_nil] at this ⊢; omega
+  · intro j hj
+    rcases I.cover j hj with h1 | h1
+    · exact Or.inl h1
+    · refine Or.inr ?_
+      simp only [List.map_cons, List.mem_cons] at h1
+      simp only [List.map_append, List.map_cons, List.map_nil, List.mem_append, List.mem_singleton]
+      rcases h1 with h1 | h1
+      · exact Or.inr h1
+      · exact Or.inl h1
+  · simp only [qMeasure, List.map_append, List.map_cons, List.map_nil, List.sum_append, List.sum_cons, List.sum_nil]
+    omega
+
+/-- an escalation keeps the invariant (for the remaining coroutines) -/
+theorem KT.kill {i polls : Nat} {T : List Nat} {w : Watcher} {k0 : Kernel} {results : List (Nat × Val)} {h : QE} {tl : List QE}
+    {k : Kernel} {objs : List PObj} {nid : Nat}
+    (I : KT i polls T w k0 results (h :: tl) k objs nid) :
+    KT i polls T w k0 (results ++ [(h.idx, Val.bool true)]) tl
+      (({ k.beginStep with now := max k.now h.dl } : Kernel).escalated h.pid)
+      (objs.map (fun o => if o.pid = h.pid then { o with stopping := false, rc := some (-9) } else o)) nid := by
+  have hkb : (({ k.beginStep with now := max k.now h.dl } : Kernel)).Base := I.base.beginStep.setNow_base _
+  have hks : (({ k.beginStep with now := max k.now h.dl } : Kernel)).Still := I.still.beginStep.setNow_still _
+  obtain ⟨hT, hp, hs, o, ho, hrc⟩ := I.live h (by simp)
+  have hsb : (({ k.beginStep with now := max k.now h.dl } : Kernel)).Stub h.pid := hs
+  have hnow : (({ k.beginStep with now := max k.now h.dl } : Kernel).escalated h.pid).now = max k.now h.dl := rfl
+  have hnd := I.nodup
+  simp only [List.map_cons, List.nodup_cons] at hnd
+  refine ⟨Kernel.escalated_base hkb hsb, Kernel.escalated_still hkb hks hsb, I.sorted.2, fun e he => I.ids e (by simp [he]), ?_,
+    fun e he => I.iub e (by simp [he]), hnd.2, ?_, ?_, ?_, ?_, ?_, ?_, I.npid⟩
+  · intro e he; rw [hnow]; have := I.dls e (by simp [he]); omega
+  · intro e he
+    obtain ⟨hT', hp', hs', o', ho', hrc'⟩ := I.live e (by simp [he])
+    have hne : e.pid ≠ h.pid := fun hc => hnd.1 (hc ▸ List.mem_map.mpr ⟨e, he, rfl⟩)
+    refine ⟨hT', hp', ?_, o', ?_, hrc'⟩
+    · obtain ⟨p, hf, hrest⟩ := hs'
+      exact ⟨p, by rw [Kernel.escalated_find_other hkb hsb hne]; exact hf, hrest⟩
+    · rw [find_modO objs h.pid e.pid (fun o => { o with stopping := false, rc := some (-9) }) (fun _ => rfl), ho']
+      have : o'.pid = e.pid := by simpa using List.find?_some ho'
+      simp [this, hne]
+  · intro q hq hnq
+    by_cases hqh : q = h.pid
+    · subst hqh
+      exact Kernel.escalated_find_self hkb hsb
+    · obtain ⟨p, hf, hg⟩ := I.done q hq (by
+        simp only [List.map_cons, List.mem_cons, not_or]; exact ⟨hqh, hnq⟩)
+      exact ⟨p, by rw [Kernel.escalated_find_other hkb hsb hqh]; exact hf, hg⟩
+  · have := I.count; simp only [List.length_cons, List.length_append, List.length_nil] at this ⊢; omega
+  · intro r hr
+    rcases List.mem_append.mp hr with hr | hr
+    · exact I.res r hr
+    · simp only [List.mem_singleton] at hr; subst hr; rfl
+  · intro j hj
+    rcases I.cover j hj with h1 | h1
+    · exact Or.inl (by simp [h1])
+    · simp only [List.map_cons, List.mem_cons] at h1
+      rcases h1 with h1 | h1
+      · exact Or.inl (by simp [h1])
+      · exact Or.inr h1
+  · intro q hq
+    have hne : q ≠ h.pid := fun he => hq (he ▸ hT)
+    rw [Kernel.escalated_find_other hkb hsb hne]
+    exact I.other q hq
+
+/-! ## Part 5: the check parks in the `kill_process` coroutines -/
+
+theorem entries_idxs (l : List Nat) : ∀ (idx nid now j : Nat), j < l.length → idx + j ∈ (entries l idx nid now).map (·.idx) := by
+  induction l with
+  | nil => intro _ _ _ j hj; simp at hj
+  | cons p r ih =>
+    intro idx nid now j hj
+    cases j with
+    | zero => simp [entries]
+    | succ j =>
+      have := ih (idx + 1) (nid + 2) now j (by simpa using hj)
+      simp only [entries, List.map_cons, List.mem_cons]
+      right
+      rw [show idx + (j + 1) = idx + 1 + j by omega]
+      exact this
+
+theorem map_arm_qFrames (u sig polls fm x : Nat) (Q : List QE) (h : ∀ e ∈ Q, e.fid ≠ x) :
+    (Q.map (qFrame u sig polls fm)).map (fun (g : Frame) => if g.fid = x then { g with armed := true } else g) =
+      Q.map (qFrame u sig polls fm) := by
+  rw [List.map_map]
+  apply List.map_congr_left
+  intro e he
+  simp [qFrame, h e he]
+
+/-- the `gen.multi`s of `manage_processes` and `manage_watchers` have started all their children: the four frames below
+    the `kill_process` coroutines are armed, in this order -/
+theorem arm_all_mk (u i m sig polls : Nat) (T : List Nat) (Q : List QE) (hq : ∀ e ∈ Q, i + 4 < e.fid)
+    (k : Kernel) (a : Arbiter) (objs : List PObj) (w : Watcher) (sl : List Sleeper) (tops : List TopFut) (rd : List Ready)
+    (dv : List (Nat × Val)) (nid : Nat) (log : List Obs) :
+    (armFrame (i + 1) (armFrame (i + 2) (armFrame (i + 3) (armFrame (i + 4)
+      ⟨k, a, objs, [w], ([{ fid := i + 1, k := .manageWatchersTail false, parent := .top i },
+          { fid := i + 2, k := .multi 1 [], parent := .frame (i + 1) 0 }] ++
+          [{ fid := i + 3, k := .manageAfterKill u T, parent := .frame (i + 2) 0 },
+          { fid := i + 4, k := .multi m [], parent := .frame (i + 3) 0 }]) ++ Q.map (qFrame u sig polls (i + 4)),
+        sl, tops, rd, dv, nid, log, false⟩).2).2).2).2 =
+      ⟨k, a, objs, [w], checkBaseA i ++ ({ fid := i + 3, k := .manageAfterKill u T, parent := .frame (i + 2) 0, armed := true } ::
+          { fid := i + 4, k := .multi m [], parent := .frame (i + 3) 0, armed := true } :: Q.map (qFrame u sig polls (i + 4))),
+        sl, tops, rd, dv, nid, log, false⟩ := by
+  have hq1 : ∀ e ∈ Q, e.fid ≠ i + 1 := fun e he => by have := hq e he; omega
+  have hq2 : ∀ e ∈ Q, e.fid ≠ i + 2 := fun e he => by have := hq e he; omega
+  have hq3 : ∀ e ∈ Q, e.fid ≠ i + 3 := fun e he => by have := hq e he; omega
+  have hq4 : ∀ e ∈ Q, e.fid ≠ i + 4 := fun e he => by have := hq e he; omega
+  simp only [armFrame, modS, List.map_append, map_arm_qFrames u sig polls (i + 4) _ Q hq4,
+    map_arm_qFrames u sig polls (i + 4) _ Q hq3, map_arm_qFrames u sig polls (i + 4) _ Q hq2,
+    map_arm_qFrames u sig polls (i + 4) _ Q hq1]
+  simp [checkBaseA]
+
+/-- the data of the start state, surplus of stubborn workers: as `SurplusOk`, but the surplus workers ignore the stop
+    signal and die at once on SIGKILL -/
+structure SurplusStubOk (u N : Nat) (w : Watcher) (s : State) : Prop where
+  ws : s.ws = [w]
+  wok : WOk u N w
+  sok : SOk u w
+  polls : 0 < pollsOf w.graceful
+  nodup : w.pids.Nodup
+  blocked : s.blocked = false
+  still : s.k.Still
+  base : s.k.Base
+  procs : ∀ pid ∈ w.pids, (∃ p, s.k.find pid = some p ∧ p.st = .run) ∧
+    ∃ o, s.objs.find? (fun o => decide (o.pid = pid)) = some o ∧ o.stopping = false ∧ o.rc = none
+  stub : ∀ pid ∈ surplus s.objs w.pids N, s.k.Stub pid
+
+/-- the polling phase with `n` timer firings to go -/
+def MidS (u i polls : Nat) (T : List Nat) (w : Watcher) (a : Arbiter) (k0 : Kernel) (n : Nat) (s : State) : Prop :=
+  ∃ results Q k objs nid log,
+    s = killingS u T.length w.stopSignal polls T (checkBaseA i) (i + 3) (i + 4) (.frame (i + 2) 0)
+      [{ tid := i, cbs := [.release, .watch], armed := true }] results Q k a objs w [] nid log ∧
+    KT i polls T w k0 results Q k objs nid ∧ qMeasure polls Q = n
+
+/-- **the periodic check with a surplus of workers that ignore the stop signal**: two status reads per worker; the
+    `m - N` oldest get the stop signal (ignored), are marked stopping, and their `kill_process` coroutines park on
+    100 ms timers, in sort order; the check stays parked with the slot taken; `(m - N) · ⌈graceful / 100 ms⌉` timer
+    firings remain -/
+theorem check_surplus_stub_parks (u N : Nat) (w : Watcher) (s : State) (hi : Idle u s) (hd : SurplusStubOk u N w s)
+    (hgt : N < w.pids.length) :
+    MidS u s.nextId (pollsOf w.graceful) (surplus s.objs w.pids N) w { s.a with slot := some "manage_watchers" } s.k
+      ((surplus s.objs w.pids N).length * pollsOf w.graceful) (step s .check) := by
+  obtain ⟨hws, hw, hso, hpolls, hnd, hb, hst, hk, hall, hstub⟩ := hd
+  obtain ⟨hfr, hsl, htops, hrd, hslot, hls, hstp, hrst, hwat⟩ := hi
+  obtain ⟨k, a, objs, ws, frames, sleepers, tops, ready, dv, i, log, blocked⟩ := s
+  simp only at hws hb hst hk hall hstub hfr hsl htops hrd hslot hls hstp hrst hwat
+  subst hws hb hfr hsl htops hrd
+  have hobj : ∀ pid ∈ w.pids, ∃ o, objs.find? (fun x => decide (x.pid = pid)) = some o := fun pid hp => by
+    obtain ⟨_, o, ho, _⟩ := hall pid hp; exact ⟨o, ho⟩
+  have hTnd := surplus_nodup objs w.pids N hobj hnd
+  have hTsub := surplus_sub objs w.pids N hobj
+  have hTlen := surplus_length objs w.pids N hobj
+  have hTne : surplus objs w.pids N ≠ [] := by
+    intro h; rw [h] at hTlen; simp at hTlen; omega
+  -- the kernel when the kills start, and afterwards
+  let K0 : Kernel := (k.beginStep.bump 1).bump (2 * w.pids.length + 2 * (surplus objs w.pids N).length)
+  let K1 : Kernel := K0.bump (2 * (surplus objs w.pids N).length)
+  let Q0 := entries (surplus objs w.pids N) 0 (i + 5) K0.now
+  let O1 := objs.map (fun o => if o.pid ∈ surplus objs w.pids N then { o with stopping := true } else o)
+  have hK0b : K0.Base := (hk.beginStep.bump 1).bump _
+  have hstep : stepM .check (⟨k, a, objs, [w], [], [], [], [], dv, i, log, false⟩ : State) =
+      ((), killingS u (surplus objs w.pids N).length w.stopSignal (pollsOf w.graceful) (surplus objs w.pids N) (checkBaseA i)
+        (i + 3) (i + 4) (.frame (i + 2) 0) [{ tid := i, cbs := [.release, .watch], armed := true }] [] Q0 K1
+        { a with slot := some "manage_watchers" } O1 w [] (i + 5 + 2 * (surplus objs w.pids N).length)
+        (parkLogs { a with slot := some "manage_watchers" } w (surplus objs w.pids N) log)) := by
+    rw [stepM_eq _ _ rfl]
+    have hop : stepOp .check (updK Kernel.beginStep (⟨k, a, objs, [w], [], [], [], [], dv, i, log, false⟩ : State)).2 =
+        ((), killingS u (surplus objs w.pids N).length w.stopSignal (pollsOf w.graceful) (surplus objs w.pids N) (checkBaseA i)
+          (i + 3) (i + 4) (.frame (i + 2) 0) [{ tid := i, cbs := [.release, .watch], armed := true }] [] Q0 K1
+          { a with slot := some "manage_watchers" } O1 w [] (i + 5 + 2 * (surplus objs w.pids N).length)
+          (parkLogs { a with slot := some "manage_watchers" } w (surplus objs w.pids N) log)) := by
+      simp only [stepOp, bind, clearDone, modS, updK, runK]
+      rw [syncCoroutine_free _ _ _ hrst hslot]
+      simp only [fuelDefault]
+      have e1 : (100000 : Nat) = 99999 + 1 := rfl
+      have e2 : (99999 : Nat) = 99998 + 1 := rfl
+      rw [e1, exec_call_mk]
+      simp only [runCall, List.nil_append]
+      rw [manageWatchers_eq (exec 99999) u N w _ _ rfl hw rfl hst.beginStep hstp hwat, awaitMulti_single]
+      simp only [List.nil_append]
+      rw [e2, exec_call_mk]
+      simp only [runCall]
+      rw [manageProcesses_surplus_front (exec 99998) u N _ w (k.beginStep.bump 1) _ objs _ _ _ log hw (hst.beginStep.bump 1)
+        (fun pid hp => (hall pid hp).1) hobj hgt]
+      rw [awaitMulti_ne _ _ (by simpa using hTne)]
+      simp only [List.length_map, show i + 1 + 2 = i + 3 from rfl, show i + 3 + 1 = i + 4 from rfl, show i + 3 + 2 = i + 5 from rfl,
+        show i + 1 + 1 = i + 2 from rfl]
+      rw [show (99998 : Nat) = 99997 + 1 from rfl]
+      rw [parkAll 99997 u (i + 4) w _ _ _ _ hso hpolls (surplus objs w.pids N) 0 K0 objs _ [] (i + 5) log hK0b hTnd
+        (fun pid hp => ⟨hTsub pid hp, hstub pid hp, (hall pid (hTsub pid hp)).2⟩)
+        (by
+          intro g hg
+          simp only [List.mem_append, List.mem_cons, List.mem_nil_iff, or_false] at hg
+          rcases hg with (rfl | rfl) | rfl | rfl <;> simp)]
+      simp only [List.nil_append, Nat.zero_add]
+      rw [arm_all_mk u i (surplus objs w.pids N).length w.stopSignal (pollsOf w.graceful) (surplus objs w.pids N)
+        (entries (surplus objs w.pids N) 0 (i + 5) K0.now) (fun e he => by have := entries_mem _ _ _ _ e he; omega)]
+      simp only [armTop, addDoneCallback, modS, bind, getS, List.map_cons, List.map_nil, if_true]
+      erw [if_pos (by simp)]
+      simp [killingS, topAddCb, modS, Q0, K1, O1]
+    rw [hop]
+    rw [stepTail_eq _ (by rw [settle_nil 99999 _ rfl]; exact hls), settle_nil 99999 _ rfl]
+  have hres : step (⟨k, a, objs, [w], [], [], [], [], dv, i, log, false⟩ : State) .check =
+      killingS u (surplus objs w.pids N).length w.stopSignal (pollsOf w.graceful) (surplus objs w.pids N) (checkBaseA i)
+        (i + 3) (i + 4) (.frame (i + 2) 0) [{ tid := i, cbs := [.release, .watch], armed := true }] [] Q0 K1
+        { a with slot := some "manage_watchers" } O1 w [] (i + 5 + 2 * (surplus objs w.pids N).length)
+        (parkLogs { a with slot := some "manage_watchers" } w (surplus objs w.pids N) log) := by
+    unfold step; rw [hstep]
+  rw [hres]
+  show MidS u i (pollsOf w.graceful) (surplus objs w.pids N) w { a with slot := some "manage_watchers" } k
+    ((surplus objs w.pids N).length * pollsOf w.graceful) _
+  refine ⟨[], Q0, K1, O1, _, _, rfl, ?_, qMeasure_entries _ hpolls _ _ _ _⟩
+  refine ⟨hK0b.bump _, ((hst.beginStep.bump 1).bump _).bump _, entries_sorted _ _ _ _, ?_, ?_, ?_, ?_, ?_, ?_, ?_, ?_, ?_,
+    (fun _ _ => rfl), rfl⟩
+  · intro e he; have := entries_mem _ _ _ _ e he; omega
+  · intro e he; have := entries_mem _ _ _ _ e he
+    show e.dl ≤ K0.now + 100
+    omega
+  · intro e he; have := entries_mem _ _ _ _ e he; omega
+  · show ((entries _ _ _ _).map _).Nodup
+    rw [entries_pids]; exact hTnd
+  · intro e he
+    have hm := (entries_mem _ _ _ _ e he).2.2.2.2
+    obtain ⟨_, o, ho, _, hrc⟩ := hall e.pid (hTsub _ hm)
+    refine ⟨hm, hTsub _ hm, hstub _ hm, (if o.pid ∈ surplus objs w.pids N then { o with stopping := true } else o), ?_, ?_⟩
+    · show (objs.map _).find? _ = _
+      rw [find_map_pid objs e.pid _ (fun o => by split <;> rfl), ho]; rfl
+    · split <;> exact hrc
+  · intro q hq hnq
+    exfalso
+    apply hnq
+    show q ∈ (entries _ _ _ _).map _
+    rw [entries_pids]; exact hq
+  · show 0 + (entries _ _ _ _).length = _
+    simp [entries_length]
+  · intro r hr; cases hr
+  · intro j hj
+    right
+    have := entries_idxs (surplus objs w.pids N) 0 (i + 5) K0.now j hj
+    simpa using this
+
 end Circus.Core
